@@ -23,8 +23,8 @@ RULE = ('cases are schedules: every single-preemption schedule (thread A runs k 
         'by a custom handler), seeded random multi-preemption schedules of 3-4 threads, and free-running stress with a 1 us switch '
         'interval; a schedule is non-trivial when a preemption actually happened while the preempted request was inside clastic; '
         'distinct by (pair, preemption point) resp. hash of the switch list')
-EXHAUSTIVE = {'quick': 'all single-preemption schedules at line granularity of all 81 ordered pairs of request kinds, on a warm application and on an application that never served a request',
-              'thorough': 'the same at line granularity plus opcode granularity inside application.py'}
+EXHAUSTIVE = {'quick': 'all single-preemption schedules at line granularity of all 81 ordered pairs of request kinds on a warm application (plus 21 pairs with further kinds), and for every second pair also on an application that never served a request',
+              'thorough': 'every pair on a warm and on a fresh application at line granularity, plus opcode granularity inside application.py'}
 ASSUMPTIONS = ['threads are serialised by the scheduler: interleavings inside C-level calls are not explored (atomic under the GIL)',
                'application code supplied by the harness is itself thread-safe and is not a preemption point']
 REQUIRED_REACH = ['schedules:single-preemption', 'schedules:single-preemption-on-fresh-application', 'schedules:random-multi', 'stress:responses-compared', 'both-in-dispatch',
@@ -240,7 +240,7 @@ class Ctx(object):
         return ok
 
 
-def single_preemption(cx, pairs, opcode=False):
+def single_preemption(cx, pairs, opcode=False, fresh_all=True):
     sh = cx.sh
     opfiles = ('application.py',) if opcode else ()
     n_eval = n_nt = 0
@@ -257,7 +257,7 @@ def single_preemption(cx, pairs, opcode=False):
             sh.hit('schedules:single-preemption')
             n_eval += 1
             n_nt += bool(s.switches)
-        if not opcode and not (ka in FRESH_SKIPPED or kb in FRESH_SKIPPED):
+        if not opcode and not (ka in FRESH_SKIPPED or kb in FRESH_SKIPPED) and (fresh_all or zlib.crc32(('%s|%s' % (ka, kb)).encode()) % 2 == 0):
             # the same schedules against an application that has never served a request: lazily built state
             # (caches, tables) is under construction exactly once in an application's life
             fresh0 = build_app()
@@ -381,7 +381,7 @@ def run_shard(sh, spec):
     cx = Ctx(sh)
     rng = random.Random(Rng(spec['seed'], PROPERTY, spec['label']).r.random())
     if spec['kind'] == 'single':
-        single_preemption(cx, [tuple(p) for p in spec['pairs']])
+        single_preemption(cx, [tuple(p) for p in spec['pairs']], fresh_all=spec.get('tier') != 'quick')
     elif spec['kind'] == 'single-opcode':
         single_preemption(cx, [tuple(p) for p in spec['pairs']], opcode=True)
     elif spec['kind'] == 'random':
